@@ -190,6 +190,39 @@ def run(ck, F):
     import c11 as _c11
     _c08.run(_c11._Only(ck, {'descent'}), F, prefix='C05')
 
+    # what the client sets on one declaration is set on that declaration: a setter that writes into the bookkeeping shared by the
+    # whole decl-set changes what earlier declarations of the set report
+    R_set = ck.rule('C05.setters-write-own-node', 'a setter of a declaration class (specifiers) stores into the declaration object itself: no write '
+                    'goes through the pointer to the data shared by all declarations of the decl-set, which would change what an earlier '
+                    'declaration reports when a later one is given its own specifiers', floor=2)
+    from symex import Sym as _SymS, Unsupported as _UnsS
+    _Ss = _SymS(F, opaque=contracts.default_opaque(F), max_depth=32)
+    setters = [f for f in F.fn.values() if (f.get('parent') or '').startswith('ipr::impl::Decl<') and f.get('body') and not f['id'].endswith(' const')
+               and not f.get('ctor') and not f.get('dtor') and f.get('params') and (f.get('ret') or '') == 'void']
+    if len(setters) < 2:
+        raise AnalysisBroken(f'setters of impl::Decl<...> instantiated by the probe: {[f["id"] for f in setters]}')
+
+    def through_pointer(t):
+        # does the location go through a dereference (shared storage) rather than staying inside `this`?
+        while isinstance(t, tuple) and t:
+            if t[0] == 'deref':
+                return True
+            if t[0] in ('fld', 'index'):
+                t = t[1]
+            elif t[0] == 'castto':
+                t = t[2]
+            else:
+                break
+        return False
+    for f in sorted(setters, key=lambda f: f['id']):
+        try:
+            outs = _Ss.run(f['id'], this=('sym', 'this'))
+        except _UnsS as e:
+            raise AnalysisBroken(f'{f["id"]}: {e}')
+        bad = sorted({contracts.render(e[1], st, {})[:70] for st, k, v in outs for e in st.effects if e[0] == 'write' and through_pointer(e[1])})
+        ck.check(R_set, contracts.short(contracts.fn_qname(f['id'])), not bad, f'{f["id"]} writes {bad}: storage reached through a pointer, shared with the other '
+                 'declarations of the set', loc=f['loc'], fn=f['id'])
+
     # a node that is shared by everyone who asks for the same thing is handed out read-only
     const_handles(ck, F, 'C05')
 
